@@ -9,7 +9,9 @@ PROPERTY_ID = "C15"
 RULE = ("programs for a field stack machine (push 32-byte encoding, add, sub, neg, mul, sq, sqn k, sq2, inv, pow25523; observations to_bytes, is_negative, "
         "is_nonzero, ==) enumerated from the grammar M ::= leaf | mul(A,A) | sq(A) | sqn(A,k) | sq2(A) | inv(A) | pow25523(A), A ::= M | add(M,M) | sub(M,M) | neg(M) "
         "(the documented operand discipline) to nesting depth 2 (thorough 3) over boundary leaves (0,1,2,19,p-1,p,p+1,2^255-20,2^255-1,2^256-1,2^254,sqrt(-1),d,2d, "
-        "limb-edge patterns, patterns); scalar wide reduction on 0,1,L-1,L,L+1,2L,kL-1,kL,kL+1, every 2^i (i<512), 2^512-1, and a sweep of 30000 (thorough 200000) pattern windows; canonical decoder on values "
+        "limb-edge patterns, patterns); limb-field products: elements assembled from the 51-bit (5 limbs x {0,1,max}, thorough 5 values) and 25.5-bit (10 limbs x {0,max}) limb fields in every combination, "
+        "all pairs multiplied bare and behind one add/sub/neg, every element squared / inverted / raised; post-image steering: every limb-field element as the *result* of mul, square, square_and_double, "
+        "sub/add and of the small-constant multiplications by 121666 and 9 (hook), operands obtained by inverting the operation in the model, each result also consumed by a following sub/neg/add/mul; scalar wide reduction on 0,1,L-1,L,L+1,2L,kL-1,kL,kL+1, every 2^i (i<512), 2^512-1, and a sweep of 30000 (thorough 200000) pattern windows; (a*b+c) mod L (hook) on all pairs of limb-field scalars (56-bit and 21-bit limbs) x boundary c; radix-16 and sliding-window digit recodings (hook) on carry-chain digit strings: digits in range and summing to the scalar; canonical decoder on values "
         "around L and every byte of L +-1; group stack machine: s*B for every single-nibble scalar and boundary scalars, a*A+b*B for all pairs of boundary scalars "
         "(incl. every odd 1..15) x 14 points, double/add/sub for all pairs of the point set, encode/decode of all points, non-canonical encodings and non-points; "
         "oracle = python integers / RFC 8032 point arithmetic; distinct = program text")
@@ -21,6 +23,12 @@ PP, L = curve.P, curve.L
 
 def builds_needed(tier):
     return ["rel"]
+
+
+# Own corpus re-run on other builds of the crate (mc/core.py: extra builds). Every observation is compared with the same model.
+def extra_builds(tier):
+    return [("relchk", None), ("fe32", None)]
+
 
 
 def bounds(tier):
@@ -187,6 +195,159 @@ def eq_cases(ls):
     return out
 
 
+# ------------------------------------------------------------------ limb-field products
+def limb_elements(radix, tier):
+    """32-byte encodings assembled from the limb fields of one backend (radix 51: five 51-bit limbs; radix 25.5: ten limbs of 26/25
+    bits), every field drawn from a boundary set, in every combination - the operands next to every carry of that representation"""
+    if radix == 51:
+        bounds_ = [0, 51, 102, 153, 204, 255]
+        vals = (lambda w: (0, 1, (1 << w) - 1)) if tier != "thorough" else (lambda w: (0, 1, 1 << (w - 1), (1 << w) - 2, (1 << w) - 1))
+    else:
+        bounds_ = [0, 26, 51, 77, 102, 128, 153, 179, 204, 230, 255]
+        vals = (lambda w: (0, (1 << w) - 1))
+    fields = []
+    for lo, hi in zip(bounds_, bounds_[1:]):
+        fields.append([v << lo for v in vals(hi - lo)])
+    out = []
+    for combo in itertools.product(*fields):
+        out.append(sum(combo))
+    # limb 0 next to the modulus: 2^51-19, 2^51-20, 2^26-19 in the lowest field with all higher fields saturated
+    top = (1 << 255) - (1 << (51 if radix == 51 else 26))
+    w0 = 51 if radix == 51 else 26
+    out += [top + (1 << w0) - 19, top + (1 << w0) - 20, top + (1 << w0) - 18]
+    return out
+
+
+def limb_cases(tier, part, nparts):
+    """products, squares and inversions of limb-field elements, bare and behind one unreduced add/sub/neg (the documented operand
+    discipline), so that every partial product is driven to its largest and smallest magnitude in every limb position"""
+    out = []
+    e51 = limb_elements(51, tier)
+    e25 = limb_elements(25, tier)
+    n = 0
+
+    def emit(tokens, v):
+        nonlocal n
+        n += 1
+        if n % nparts == part:
+            out.append(observe((tokens, v % PP, "M")))
+
+    def tok(x):
+        return [le(x).hex()]
+
+    for x in e51 + e25:
+        v = x % PP
+        emit(tok(x) + ["sq"], v * v)
+        emit(tok(x) + ["sq2"], 2 * v * v)
+        emit(tok(x) + tok(x) + ["add", "sq"], 4 * v * v)
+        emit(tok(x) + ["neg", "sq"], v * v)
+        emit(tok(x) + ["inv"], pow(v, PP - 2, PP))
+        emit(tok(x) + ["pow25523"], pow(v, (PP - 5) // 8, PP))
+        emit(tok(x) + ["sqn:5"], pow(v, 32, PP))
+        emit(tok(x) + tok(x) + ["add"], 2 * v)
+        emit(tok(x) + ["neg"], -v)
+    if tier == "thorough":
+        q51 = limb_elements(51, "quick")
+        pairs = ((e51, q51 + e51[::13]), (e25, e25[::4] + e25[-3:]))
+    else:
+        pairs = ((e51, e51), (e25, e25[::31] + e25[-3:]))
+    for (A, Bset) in pairs:
+        for x in A:
+            vx = x % PP
+            tx = le(x).hex()
+            for y in Bset:
+                n += 1
+                if n % nparts != part:
+                    continue
+                vy = y % PP
+                ty = le(y).hex()
+                out.append(observe(([tx, ty, "mul"], vx * vy % PP, "M")))
+                out.append(observe(([tx, tx, "add", ty, ty, "add", "mul"], 4 * vx * vy % PP, "M")))
+                out.append(observe(([tx, "neg", ty, tx, "sub", "mul"], (-vx) * (vy - vx) % PP, "M")))
+                out.append(observe(([tx, ty, "sub"], (vx - vy) % PP, "M")))
+    return out
+
+
+def sqrt_mod(v):
+    """a square root of v modulo p, or None"""
+    v %= PP
+    r = pow(v, (PP + 3) // 8, PP)
+    if r * r % PP != v:
+        r = r * curve.SQRTM1 % PP
+    return r if r * r % PP == v else None
+
+
+def steer_cases(tier, part, nparts):
+    """post-image steering: the *results* are the limb-field elements (so the final carry folds of every operation are driven with
+    limb 0 next to 0 and next to its maximum while the top limb overflows); operands are obtained by inverting the operation in the
+    model: b = T/a for mul, y = sqrt(T) for square / square_and_double, x = T/k for the small-constant multiplications (hook), each
+    also consumed by the following sub / neg / add as the ladders and the group formulas do"""
+    out = []
+    targets = limb_elements(51, "quick") + limb_elements(25, "quick")
+    if tier == "thorough":
+        targets = limb_elements(51, "thorough") + limb_elements(25, "quick")
+    pats = [int.from_bytes(pat(k, 0, 32), "little") & ((1 << 255) - 1) for k in (5, 6)]
+    i121666 = pow(121666, PP - 2, PP)
+    i9 = pow(9, PP - 2, PP)
+    n = 0
+    for T in targets:
+        n += 1
+        if n % nparts != part:
+            continue
+        t = T % PP
+
+        def emit(tokens, v):
+            out.append(observe((tokens, v % PP, "M")))
+
+        def h(x):
+            return le(x % PP).hex()
+
+        # small-constant multiplication (the X25519 ladders): bare, and fed by a subtraction as e = aa - bb is
+        for k, ik, op in ((121666, i121666, "ms121666"), (9, i9, "ms9")):
+            x = t * ik % PP
+            emit([h(x), op], t)
+            for r in pats:
+                emit([h(x + r), h(r), "sub", op], t)
+                emit([h(x - r), h(r), "add", op], t)
+                emit([h(r), h(t - r * k), "swap", op, "add"], t)            # t3 = k*e ; bb + t3
+        for a in pats:
+            b = t * pow(a, PP - 2, PP) % PP
+            emit([h(a), h(b), "mul"], t)
+            emit([h(b), h(a), "mul"], t)
+            emit([h(a - 5), h(5), "add", h(b), "mul"], t)
+            emit([h(a), h(b), "mul", "neg"], -t)
+            emit([h(1), h(a), h(b), "mul", "sub"], 1 - t)
+            emit([h(a), h(b), "mul", "dup", "add"], 2 * t)
+            emit([h(a), h(b), "mul", "sq"], t * t)
+        y = sqrt_mod(t)
+        if y is not None:
+            for yy in (y, PP - y):
+                emit([h(yy), "sq"], t)
+                emit([h(yy), "sq2"], 2 * t)
+                emit([h(yy), "sq2", "neg"], -2 * t)
+                emit([h(yy), "sq", "neg"], -t)
+                for x in (0, 1, 75, 1 << 51):
+                    emit([h(x), h(yy), "sq2", "sub"], x - 2 * t)
+                    emit([h(x), h(yy), "sq", "sub"], x - t)
+                emit([h(yy), "sq2", h(3), "mul"], 6 * t)
+                emit([h(yy), "sqn:1"], t)
+        y2 = sqrt_mod(t * pow(2, PP - 2, PP))
+        if y2 is not None:
+            emit([h(y2), "sq2"], t)
+            emit([h(0), h(y2), "sq2", "sub"], -t)
+            emit([h(y2), "sq2", "neg"], -t)
+        iv = pow(t, PP - 2, PP)
+        emit([h(iv), "inv"], t if t else 0)
+        for r in pats:
+            emit([h(t + r), h(r), "sub"], t)
+            emit([h(t - r), h(r), "add"], t)
+            emit([h(-t), "neg"], t)
+    return out
+
+
+NLIMBSH = 16
+
+
 # ------------------------------------------------------------------ scalars
 def scalar_cases(tier):
     out = []
@@ -207,6 +368,21 @@ def scalar_cases(tier):
     for i in range(nsweep):
         b = pat(5 + (i % 3), 64 * (i // 3) % 65000 + (i % 61), 64)
         out.append((["sc_reduce %s" % H(b)], [(int.from_bytes(b, "little") % L).to_bytes(32, "little").hex()], None))
+    # result steering: x = r + k*L with the remainder r assembled from limb fields of either backend (every combination of field
+    # boundary values) and quotients k of every size - the final carry passes then end on limbs that are 0 / saturated
+    kmax = ((1 << 512) - 1) // L
+    ks = [0, 1, 2, 3, 1 << 64, (1 << 128) - 1, 1 << 200, (1 << 252) - 1, 1 << 252, kmax // 3, kmax - (1 << 200), kmax - 1]
+    ks += [int.from_bytes(pat(k, 0, 32), "little") for k in (5, 6, 7)]
+    rs = scalar_limb_elements(56) + scalar_limb_elements(21)
+    if tier != "thorough":
+        ks = ks[:2] + ks[4:5] + ks[7:8] + ks[10:13]
+    for r in rs:
+        if r >= L:
+            continue
+        for k in ks:
+            x = r + k * L
+            if x < (1 << 512):
+                out.append((["sc_reduce %s" % H(x.to_bytes(64, "little"))], [le(r).hex()], None))
     canon = [0, 1, L - 1, L, L + 1, 1 << 252, (1 << 253) - 1, (1 << 255) - 1, (1 << 256) - 1, 2 * L, L - 2, (1 << 252) - 1]
     lb = L.to_bytes(32, "little")
     for i in range(32):
@@ -227,6 +403,92 @@ def scalar_cases(tier):
         out.append((["sc_canon %s" % H(b)], [exp], None))
         if v < L:
             out.append((["sc_roundtrip %s" % H(b)], [b.hex()], None))
+    return out
+
+
+def scalar_limb_elements(radix):
+    """scalars below 2^252 assembled from limb fields (56-bit limbs of the 64-bit backend, 21-bit limbs of the 32-bit one)"""
+    if radix == 56:
+        bounds_ = [0, 56, 112, 168, 224, 252]
+        vals = lambda w: (0, 1, (1 << w) - 1)
+    else:
+        bounds_ = list(range(0, 252, 21)) + [252]
+        vals = lambda w: (0, (1 << w) - 1)
+    fields = [[v << lo for v in vals(hi - lo)] for lo, hi in zip(bounds_, bounds_[1:])]
+    return [sum(c) for c in itertools.product(*fields)]
+
+
+def digit_scalars():
+    """scalars whose radix-16 / binary digit strings contain every carry chain: constant nibbles, runs of 0xF / 0x8 / 0x7 of every length
+    at every position, single nibbles, alternating patterns"""
+    out = [0, 1, L - 1, L, (1 << 252) - 1, (1 << 253) - 1, (1 << 255) - 1]
+    for v in range(16):
+        out.append(int(("%x" % v) * 63, 16) | ((v & 7) << 252))
+    for run_v in (0xF, 0x8, 0x7, 0x9):
+        for start in range(0, 63, 3):
+            for ln in (1, 2, 3, 7, 16, 33, 63 - start):
+                if start + ln > 63:
+                    continue
+                x = 0
+                for i in range(start, start + ln):
+                    x |= run_v << (4 * i)
+                out += [x, x | (1 << (4 * (start + ln))) if start + ln < 63 else x, x | 7 << 252]
+    for pos in range(64):
+        for v in (1, 7, 8, 9, 15):
+            x = v << (4 * pos)
+            if x < (1 << 255):
+                out.append(x)
+    out += [int.from_bytes(pat(k, o, 32), "little") & ((1 << 255) - 1) for k in (5, 6, 7, 2, 4) for o in (0, 32, 64)]
+    return sorted(set(out))
+
+
+def _nibbles_ok(a):
+    def pred(o):
+        if len(o) != 128:
+            return False
+        d = [b - 256 if b > 127 else b for b in bytes.fromhex(o)]
+        return all(0 <= x <= 15 for x in d) and sum(x << (4 * i) for i, x in enumerate(d)) == a
+    pred.__name__ = "radix16_digits_in_0..15_summing_to_%x" % a
+    return pred
+
+
+def _slide_ok(a):
+    def pred(o):
+        if len(o) != 512:
+            return False
+        d = [b - 256 if b > 127 else b for b in bytes.fromhex(o)]
+        return all(x == 0 or (x % 2 != 0 and -15 <= x <= 15) for x in d) and sum(x << i for i, x in enumerate(d)) == a
+    pred.__name__ = "odd_digits_in_-15..15_summing_to_%x" % a
+    return pred
+
+
+def scalar_hook_cases(tier, part, nparts):
+    """(a*b + c) mod L on limb-field scalars (a, c reduced; b below 2^255 like a clamped secret), and the signed digit recodings:
+    the digits must stay in range and sum back to the scalar (nibbles() yields the unsigned radix-16 digits; the signed recoding inside
+    scalarmult_base is driven by the same carry-chain scalars through `ge base:`)"""
+    out = []
+    n = 0
+    e56 = scalar_limb_elements(56)
+    e21 = scalar_limb_elements(21)
+    cs = [0, 1, L - 1, (1 << 252) - 1]
+    top = [0, 1 << 252, 7 << 252]
+    groups = [(e56, e56), (e21, e21[::257] + e21[-2:])] if tier != "thorough" else [(e56, e56), (e21, e21[::5] + e21[-2:])]
+    for A, Bs in groups:
+        for a in A:
+            for b in Bs:
+                n += 1
+                if n % nparts != part:
+                    continue
+                for c in cs:
+                    bb = b | top[(n + c) % 3]
+                    out.append((["sc_muladd %s %s %s" % (H(le(a)), H(le(bb)), H(le(c)))], [le((a * bb + c) % L).hex()], None))
+    for a in digit_scalars() + [x for x in e56 + e21[::9]]:
+        n += 1
+        if n % nparts != part:
+            continue
+        if a < (1 << 255):
+            out.append((["sc_nibbles %s" % H(le(a))], [_nibbles_ok(a)], None))
+        out.append((["sc_slide %s" % H(le(a))], [_slide_ok(a)], None))
     return out
 
 
@@ -255,6 +517,8 @@ def base_scalars():
             if x < (1 << 255):
                 s.append(x)
     s += [int.from_bytes(pat(k, o, 32), "little") & ((1 << 255) - 1) for k in (5, 6, 7, 2) for o in (0, 32)]
+    # carry chains of the signed radix-16 recoding: runs of 8..F digits of every length at every position, up to the top digit
+    s += [x for x in digit_scalars() if x < (1 << 255)]
     return s
 
 
@@ -392,6 +656,8 @@ def cases(tier):
 def shards(tier):
     sh = [("shard_field1", None), ("shard_field2", None), ("shard_eq", None), ("shard_scalar", None), ("shard_codec", None), ("shard_base", None), ("shard_law", None)]
     sh += [("shard_dsm", i) for i in range(8)]
+    sh += [("shard_limbs", i) for i in range(NLIMBSH)]
+    sh += [("shard_scalar_hooks", i) for i in range(8)]
     if tier == "thorough":
         sh.append(("shard_field3", None))
     return sh
@@ -416,6 +682,14 @@ def shard_field2(_, tier):
 
 def shard_field3(_, tier):
     return _run(field_cases_level3(core_leaves(tier, 4)))
+
+
+def shard_limbs(i, tier):
+    return _run(limb_cases(tier, i, NLIMBSH) + steer_cases(tier, i, NLIMBSH))
+
+
+def shard_scalar_hooks(i, tier):
+    return _run(scalar_hook_cases(tier, i, 8))
 
 
 def shard_eq(_, tier):
